@@ -12,10 +12,12 @@ import (
 // patterns and candidates; the regexp engine is host code).
 func VerifC18_UserType() {
 	zzverif.Expect("accepted", "rejected")
-	pats := []string{"^[a-c]+$", "^x\\d$", "^(ab|cd)$", "^$", "^a{2}$", "^\\\\$", "^\"$", "^a\\.b$"}
+	pats := []string{"^[a-c]+$", "^x\\d$", "^(ab|cd)$", "^$", "^a{2}$", "^\\\\$", "^\"$", "^a\\.b$",
+		"^\\/v1\\/", "\\/", "^a\\/b$", "^[a-c]\\/$"} // also patterns that END with an escaped delimiter
 	// candidates: JSON spelling and decoded value
 	cands := [][2]string{{"abc", "abc"}, {"x1", "x1"}, {"cd", "cd"}, {"", ""}, {"zz", "zz"}, {"x", "x"}, {"abd", "abd"},
-		{"aa", "aa"}, {"a{2}", "a{2}"}, {"\\\\", "\\"}, {"\\\"", "\""}, {"a.b", "a.b"}}
+		{"aa", "aa"}, {"a{2}", "a{2}"}, {"\\\\", "\\"}, {"\\\"", "\""}, {"a.b", "a.b"},
+		{"/v1/", "/v1/"}, {"/", "/"}, {"a/b", "a/b"}, {"b/", "b/"}}
 	p := pats[zzverif.IntRange("pattern", 0, len(pats)-1)]
 	cand := cands[zzverif.IntRange("candidate", 0, len(cands)-1)]
 	c := cand[1]
